@@ -20,7 +20,8 @@ EXPLANATION = (
     '(A3); the asserted linear form agrees with the projection half-space '
     '(A4, when the affine engine is available); and each layer forwards every '
     'constraint kind it holds to the library (W1). The eps margins themselves '
-    'and TF op semantics are trusted.')
+    'and TF op semantics are trusted.'
+    ' Also decided: what PWLCalibration.assert_constraints hands to the assertion depends on the kernel and on no presentation / imputation switch nor on constructor keypoints (A6, influence analysis); the KFL assertion checks the non-negativity of the factors that the projection enforces (A7); tuple lattice_sizes are handled (T3).')
 ASSUMPTIONS = [
     'tf.reduce_* / tf.Assert / tf.squeeze have their documented semantics',
     'weights, outputs, scale are the only tensor-valued parameters of the '
